@@ -4,6 +4,7 @@
 // history (C08, C04), exact deadlock detection and a step budget (C09), and the
 // sanitizer the binary was built with (C10: ThreadSanitizer / AddressSanitizer).
 #include "lsim.h"
+#include "monitors.h"
 #include <algorithm>
 #include <stdio.h>
 #include <string.h>
@@ -104,8 +105,14 @@ void conc_thread(void *arg) {
           count("snapshot_reread_checks");
           if (h.rc == 0 && again != h.rows) {
             string why;
-            for (auto &kv : h.rows) { bool f = false; for (auto &kv2 : again) if (kv2 == kv) f = true; if (!f) { why = "key " + printable(kv.first) + " showed " + printable(kv.second, 16) + " before and does not any more"; break; } }
+            for (auto &kv : h.rows) { bool f = false; for (auto &kv2 : again) if (kv2 == kv) f = true; if (!f) { string now = "NOTFOUND"; for (auto &kv2 : again) if (kv2.first == kv.first) now = printable(kv2.second, 16); why = "key " + printable(kv.first) + " showed " + printable(kv.second, 16) + " before and shows " + now + " now"; break; } }
             if (why.empty()) why = "an entry appeared that the snapshot did not show before";
+            if (getenv("LSIM_DEBUG_C06")) {
+              { sim::NoPreempt np; string v3; int rc3 = db_get(C.db, "c2", &v3, s, cfg.verify, cfg.fillc); fprintf(stderr, "  re-get c2 (no preempt) -> %s %s\n", rcname(rc3), printable(v3, 8).c_str()); fprintf(stderr, "%s", db_sstables(C.db).c_str()); }
+              std::vector<SstFile> files; parse_sstables(db_sstables(C.db), &files);
+              for (auto &f : files) { string data; if (!simfs::read_file(table_path("/sim/db", f.number), &data)) continue; ref::TableDecode td = ref::table_decode(data); for (auto &e : td.entries) { ref::IKey k; if (ref::ikey_parse(e.ikey, &k) && k.user == h.rows[0].first.substr(0,0) + "c2") fprintf(stderr, "  L%d #%llu c2@%llu type=%d val=%s\n", f.level, (unsigned long long)f.number, (unsigned long long)k.seq, k.type, printable(e.value, 8).c_str()); } }
+              fprintf(stderr, "  snapshot seq %llu; R1:", (unsigned long long)*(const uint64_t *)s); for (auto &kv : h.rows) fprintf(stderr, " %s=%s", printable(kv.first).c_str(), printable(kv.second, 8).c_str()); fprintf(stderr, "\n  R2:"); for (auto &kv : again) fprintf(stderr, " %s=%s", printable(kv.first).c_str(), printable(kv.second, 8).c_str()); fprintf(stderr, "\n");
+            }
             violation("C06", "snapshot_changed", "thread %d: a snapshot taken at steps [%llu,%llu] and held across a flush and a compaction no longer shows what it showed: %s", tid, (unsigned long long)h.inv, (unsigned long long)h.ret, why.c_str());
           }
         }
@@ -436,6 +443,12 @@ void exec_conc(const Plan &p, RunOut *out) {
         for (auto &k : C.keys) { HOp h; h.tid = 0; h.kind = O_GET; h.key = k; h.inv = sim::step(); int rc2 = db_get(C.db, k, &h.val, nullptr, 1, 1); h.ret = sim::step(); h.found = rc2 == LDB_OK; finals.push_back(h); }
         // order the final reads strictly after the history
         judge(C, prefill, finals);
+      }
+      // C14 under concurrency: once every caller has returned and the worker is idle, the layout must be well-formed
+      if (!failed()) {
+        sim::drain();
+        std::vector<SstFile> files;
+        if (parse_sstables(db_sstables(C.db), &files)) { KeyCmp kc; check_level_structure(dir, files, kc, "after a concurrent history"); count("structure_checks"); }
       }
       // close while background work may be scheduled or mid-way (callers have returned)
       ldb_close(C.db); C.db = nullptr;
